@@ -16,7 +16,8 @@ import time
 from concurrent.futures import ThreadPoolExecutor
 
 VENV_PY = "/verif/.venv/bin/python"
-ENV = dict(os.environ, PYTHONPATH="/verif:/repo", PYTHONHASHSEED="0", PYTHONDONTWRITEBYTECODE="1")
+REPO = os.environ.get("VERIF_REPO", "/repo")
+ENV = dict(os.environ, PYTHONPATH="/verif:" + REPO, PYTHONHASHSEED="0", PYTHONDONTWRITEBYTECODE="1")
 
 _CEX = re.compile(r"error: (.*?) when calling (.*?)(?: \(which returns (.*)\))?$")
 
@@ -61,7 +62,8 @@ def run_conditions(conds, parallel=8):
 
 _REPLAY = r"""
 import sys, json, importlib
-sys.path[:0] = ['/verif', '/repo']
+import os
+sys.path[:0] = ['/verif', os.environ.get('VERIF_REPO', '/repo')]
 mod = importlib.import_module(sys.argv[1])
 ns = dict(vars(mod))
 try:
